@@ -246,6 +246,62 @@ CLAIMED = {
         "technique": "explicit TLA+ spec (CellStore.tla) model-checked with TLC; TLC-generated and TLC-simulated behaviours "
                      "replayed on the library; recorded traces validated by TLC against the same Post operators",
     },
+    "C02": {
+        "domains": ["package"],
+        "text": "TLC checks the design of the writer (Package.tla: SavePkg = fixed parts, one sheet part per position, per-sheet "
+                "objects with first-free numbering and first-writer-wins, shared strings/styles interning, two rId passes) on all "
+                "workbooks of a bounded model (<=3 sheets; external/internal hyperlinks, comments, tables, images, charts, "
+                "conditional formats, macro payload, removed/renamed sheets) for every hyperlink enumeration order: PackageOK and "
+                "DecodedEqualsModel hold, and the two-independent-orders variant is shown to break them. Every behaviour of the "
+                "model, TLC-simulated 40-step histories, seeded random workbooks and every corpus file re-saved (both writers, "
+                "and once more after API edits) are executed on the library; the written bytes are decoded by an independent "
+                "zipfile+expat reader and TLC evaluates the validity clauses (content types, relationships, r:id resolution and "
+                "type, unique ids/names, CT_Worksheet child order, row/cell order and range, style/sst/dxf/xf indices, "
+                "activeTab) on the logged package and compares decoded cells, formulas, hyperlinks, merges, defined names and "
+                "sheet list with its own state.",
+        "note": TRUST + ", pydec/xlsx.py (zip CRC by zipfile, well-formedness/legal characters by expat), and three string "
+                        "functions TLC cannot compute (XML line-end normalisation, ST_Xstring unescaping, XML Char legality) passed "
+                        "as facts bound to model cells. Styled blank cells are not content; charts only on plainly named sheets; "
+                        "lazy-loaded workbooks are left to C11.",
+        "technique": "explicit TLA+ spec (Package.tla) model-checked with TLC; TLC-generated behaviours replayed on the library; "
+                     "written files decoded independently and validated by TLC against the same operators",
+    },
+    "C03": {
+        "domains": ["decode"],
+        "text": "TLC checks the decoding specification (Decode.tla) on every file model the GenFile state machine can build "
+                "within the bounds: every valid encoding decodes, the kind depends only on t= and <v>/<is>, a shared-string cell "
+                "means what the same inline item means, the master of a shared formula is first in document order, a child's "
+                "formula is Formula!Translate of the master's. Every finished file model (about 7600 enumerated, 1500 "
+                "TLC-simulated, one per open finding, 300 seeded random ones; thorough about 39000) is written by an "
+                "independent writer, and every readable corpus file is taken as it is; each is loaded by "
+                "reader::xlsx::read_reader and dumped through public getters; raw encodings are extracted by the independent "
+                "pydec reader, and TLC accepts a cell only if value, kind, formula and number format are exactly what the "
+                "specification decodes, or exactly what the model of an open finding computes. Sheet names, hyperlink "
+                "targets/locations, table columns and defined-name names are compared as attribute values.",
+        "note": TRUST + ", pydec/xlsx.py + pydec/decode_extract.py + pydec/build_xlsx.py. Decimal text to double, ST_Xstring "
+                        "unescaping, XML parsing and white-space trimming happen in pydec outside TLC; a <t> with outer white "
+                        "space but no xml:space=preserve, applyNumberFormat=0 and builtin formats outside ECMA-376 18.8.30 are not "
+                        "judged; formula texts may differ in optional blanks.",
+        "technique": "explicit TLA+ spec (Decode.tla + Formula.tla) model-checked with TLC; TLC-generated file models written to "
+                     "bytes and loaded by the library; TLC trace validation with exact deviation models",
+    },
+    "C04": {
+        "domains": ["resave"],
+        "text": "TLC checks on a bounded family of original files (foreign files with their own cell format 0, duplicate formats, "
+                "blank cells with/without style, unused shared strings, default and custom rows, unmodelled parts, library-made "
+                "files) that generation 2 is a fixed point, generation 1 equals the original up to Norm (spelled out in TLA+), "
+                "an edit changes exactly one cell, two saves of one workbook agree; and that Esc/Unesc text channels are "
+                "drift-free (refuting 'write Esc, read Id', a writer that drops styled blank cells and a non-escaping writer). "
+                "The same operators judge the real library on every readable corpus file, on API-generated workbooks with "
+                "XML-special / non-ASCII / three-level entity text in every text channel and on files built from TLC's "
+                "behaviours: load -> (save -> load) x 3, a second save, and 3 more generations after each single-cell edit; each "
+                "generation logs the full public-getter projection plus the independent decoder's part list and string inventory.",
+        "note": TRUST + ", pydec/xlsx.py. Styles are compared through a digest of the effective style; cell format 0 of a foreign "
+                        "file is identified as the one digest of the original that no longer occurs after the first save; parts "
+                        "are compared by name and content type, strings as a multiset.",
+        "technique": "explicit TLA+ specs (Resave.tla, Channels.tla) model-checked with TLC, deviant designs refuted; trace "
+                     "validation of load/save generations on corpus, generated and TLC-built files",
+    },
 }
 
 NOT_CLAIMED = {}
